@@ -3,6 +3,7 @@ package main
 import (
 	"bytes"
 	"fmt"
+	"regexp"
 	"strconv"
 	"strings"
 )
@@ -113,8 +114,34 @@ func (p *termParser) expr() (TVal, error) {
 	return v, nil
 }
 
+var reEndian = regexp.MustCompile(`^\(encoding/binary\.(big|little)Endian\)\.Uint(16|32|64)\(global:encoding/binary\.(Big|Little)Endian, `)
+
 func (p *termParser) primary() (TVal, error) {
 	r := p.rest()
+	if m := reEndian.FindStringSubmatch(r); m != nil {
+		p.pos += len(m[0])
+		v, err := p.expr()
+		if err != nil {
+			return v, err
+		}
+		if !strings.HasPrefix(p.rest(), ")") {
+			return v, evalErr{"expected ) after decoder argument"}
+		}
+		p.pos++
+		n := map[string]int{"16": 2, "32": 4, "64": 8}[m[2]]
+		if v.K != "b" || len(v.B) < n {
+			return v, evalErr{"decoder argument too short (the extracted term would panic)"}
+		}
+		var u uint64
+		for i := 0; i < n; i++ {
+			if m[1] == "big" {
+				u = u<<8 | uint64(v.B[i])
+			} else {
+				u |= uint64(v.B[i]) << (8 * i)
+			}
+		}
+		return U(u), nil
+	}
 	// bound leaf (longest match followed by a delimiter or postfix we do not understand)
 	for _, k := range p.keys {
 		if strings.HasPrefix(r, k) {
@@ -264,6 +291,12 @@ func (p *termParser) primary() (TVal, error) {
 			return U(v.U & 0xffff), nil
 		case "uint32":
 			return U(v.U & 0xffffffff), nil
+		case "int8":
+			return U(uint64(int64(int8(v.U)))), nil
+		case "int16":
+			return U(uint64(int64(int16(v.U)))), nil
+		case "int32":
+			return U(uint64(int64(int32(v.U)))), nil
 		case "uint64", "int64", "int", "uint", "uintptr":
 			return v, nil
 		}
